@@ -243,6 +243,7 @@ type Sched struct {
 	wgs     map[*WaitGroup]*wgState
 	mus     map[unsafe.Pointer]*muState
 	onces   map[*Once]*onceState
+	conds   map[*Cond]*condState
 	Data    any // free slot for the harness
 }
 
